@@ -499,6 +499,32 @@ def oracle_point(s, g, ang, dp, r, tol):
         bad.append(('rot_orthonormal', 'R^T R - I = {}'.format(np.abs(R.T.dot(R) - np.eye(ndim)).max())))
     if abs(np.linalg.det(R) - 1) > 1e-12:
         bad.append(('rot_det_one', 'det R = {!r}'.format(np.linalg.det(R))))
+    # convention: counter-clockwise by `angle` (2d), right-handed about `axis` (Rodrigues),
+    # Rz(phi) Rx(theta) Rz(psi) (Euler ZXZ)
+    if cls in ('par2', 'fan'):
+        c, si = math.cos(ang), math.sin(ang)
+        Rexp = np.array([[c, -si], [si, c]])
+    elif cls == 'par3e':
+        def rz(a):
+            return np.array([[math.cos(a), -math.sin(a), 0], [math.sin(a), math.cos(a), 0], [0, 0, 1]])
+
+        def rx(a):
+            return np.array([[1, 0, 0], [0, math.cos(a), -math.sin(a)], [0, math.sin(a), math.cos(a)]])
+        a3 = list(ang) + [0.0] * (3 - len(ang))
+        Rexp = rz(a3[0]).dot(rx(a3[1])).dot(rz(a3[2]))
+    else:
+        axv = np.asarray(g.axis, dtype=float)
+        w = np.cross(axv, [1.0, 0.3, -0.2])
+        w = w / np.linalg.norm(w)
+        w2 = np.cross(axv, w)
+        Rexp = None
+        if not close(R.dot(axv), axv, 1e-12) or \
+                not close(R.dot(w), math.cos(ang) * w + math.sin(ang) * w2, 1e-12):
+            bad.append(('rot_convention', 'rotation_matrix({}) is not the right-handed rotation by the '
+                        'angle about axis {}'.format(ang, axv.tolist())))
+    if Rexp is not None and not close(R, Rexp, 1e-12):
+        bad.append(('rot_convention', 'rotation_matrix({}) = {} expected {}'.format(
+            ang, R.tolist(), Rexp.tolist())))
     ref, pos, surf = r['ref'][1], r['pos'][1], r['surf'][1]
     for nm, v in (('ref', ref), ('pos', pos), ('surf', surf), ('d2sn', r['d2sn'][1])):
         if np.shape(v) != (ndim,):
@@ -545,6 +571,60 @@ def oracle_point(s, g, ang, dp, r, tol):
         st, n2 = guarded(lambda: g.det_to_src(ang, other))
         if st != 'ok' or not close(n, n2, 1e-12):
             bad.append(('parallel_dir_const', 'det_to_src differs between detector points'))
+    # flat detectors: surface(u) = sum u_i * axes_i
+    if s.get('det', 'flat') == 'flat':
+        ia = np.asarray(g.detector.axis if ndim == 2 else g.detector.axes, dtype=float).reshape(-1, ndim)
+        us = [dp] if ndim == 2 else list(dp)
+        if not close(surf, sum(u * a for u, a in zip(us, ia)), 1e-12 * (1 + max(abs(u) for u in us))):
+            bad.append(('flat_surface', 'surface({}) = {} != sum u_i axes_i'.format(dp, np.asarray(surf).tolist())))
+    else:
+        # curved detectors: surface_deriv is the derivative of surface (central differences),
+        # which together with the alignment at parameter 0 pins the parametrisation down
+        h = 1e-5
+        det = g.detector
+        lo = np.asarray(det.params.min_pt, dtype=float)
+        hi = np.asarray(det.params.max_pt, dtype=float)
+        p0 = np.clip(np.atleast_1d(np.asarray(dp, dtype=float)), lo + h, hi - h)
+        conv = (lambda v: float(v[0])) if ndim == 2 else (lambda v: tuple(float(x) for x in v))
+        std, dv = guarded(lambda: np.asarray(det.surface_deriv(conv(p0)), dtype=float).reshape(-1, ndim))
+        if std != 'ok':
+            bad.append(('call', 'surface_deriv raised ' + std))
+        else:
+            for i in range(len(p0)):
+                e = np.zeros(len(p0))
+                e[i] = h
+                stq, fd = guarded(lambda: (np.asarray(det.surface(conv(p0 + e)), dtype=float)
+                                           - np.asarray(det.surface(conv(p0 - e)), dtype=float)) / (2 * h))
+                if stq != 'ok' or not close(fd, dv[i], 1e-7 * (1 + det.radius)):
+                    bad.append(('surface_deriv', 'surface_deriv({})[{}] = {} but central difference of '
+                                'surface gives {}'.format(conv(p0), i, dv[i].tolist(),
+                                                          fd.tolist() if stq == 'ok' else stq)))
+    # shift functions: "d" = along R*src_to_det_init (away from the centre), "t" = direction of
+    # motion of the unshifted point under increasing angle (axis x radius vector), "r" = axis
+    if cls in ('fan', 'cone') and s.get('ssh'):
+        s0 = dict(s)
+        s0.pop('ssh'), s0.pop('dsh')
+        st0, g0 = guarded(lambda: build(s0))
+        if st0 == 'ok':
+            drot = R.dot(np.asarray(g.src_to_det_init, dtype=float))
+            ssh = np.asarray(g.src_shift_func(np.array([ang], dtype=float)), dtype=float).reshape(-1)
+            dsh = np.asarray(g.det_shift_func(np.array([ang], dtype=float)), dtype=float).reshape(-1)
+            if ndim == 2:
+                tdet = np.array([-drot[1], drot[0]])
+                axv = np.zeros(2)
+                ssh, dsh = np.append(ssh, 0.0), np.append(dsh, 0.0)
+            else:
+                axv = np.asarray(g.axis, dtype=float)
+                tdet = np.cross(axv, drot)
+                tdet = tdet / np.linalg.norm(tdet)
+            exp_ref = g0.det_refpoint(ang) + dsh[0] * drot + dsh[1] * tdet + dsh[2] * axv
+            exp_src = g0.src_position(ang) + ssh[0] * (-drot) + ssh[1] * (-tdet) + ssh[2] * axv
+            if not close(ref, exp_ref, tol):
+                bad.append(('shift_functions', 'det_refpoint {} expected unshifted + shift_d*d + shift_t*tangent '
+                            '+ shift_r*axis = {}'.format(np.asarray(ref).tolist(), exp_ref.tolist())))
+            if not close(r['src'][1], exp_src, tol):
+                bad.append(('shift_functions', 'src_position {} expected {}'.format(
+                    np.asarray(r['src'][1]).tolist(), exp_src.tolist())))
     # rotated detector axes: unit, and R * initial axes
     init_axes = np.asarray(g.detector.axis if ndim == 2 else g.detector.axes,
                            dtype=float).reshape(-1, ndim)
@@ -660,6 +740,85 @@ class Dedup:
             self.ctx.violation(key, what, replay)
 
 
+def oracle_frame(s, g):
+    """Constructor relations: stored vectors are normalised, and the vectors that were NOT given
+    are the default frame carried along by a ROTATION taking the default principal vector to the
+    given one (documented in the Notes of each class): orthogonality and handedness of the
+    default frame are preserved, the principal vector is hit."""
+    bad = []
+    cls = s['cls']
+    ndim = 2 if cls in ('par2', 'fan') else 3
+    ia = np.asarray(g.detector.axis if ndim == 2 else g.detector.axes, dtype=float).reshape(-1, ndim)
+    for a in ia:
+        if abs(np.linalg.norm(a) - 1) > 1e-12:
+            bad.append('detector axis not normalised: {}'.format(a.tolist()))
+    if cls in ('par3a', 'cone') and abs(np.linalg.norm(g.axis) - 1) > 1e-12:
+        bad.append('axis not normalised')
+    if cls in ('fan', 'cone') and abs(np.linalg.norm(g.src_to_det_init) - 1) > 1e-12:
+        bad.append('src_to_det_init not normalised')
+    if s['how'] != 'ctor':
+        return bad
+    t = np.asarray(g.translation, dtype=float)
+    tl = 1e-12
+    if cls in ('par2', 'fan'):
+        prin = (np.asarray(g.det_pos_init, dtype=float) - t) if cls == 'par2' else np.asarray(g.src_to_det_init, dtype=float)
+        given = s.get('pos') if cls == 'par2' else s.get('s2d')
+        if given is not None and not close(prin / np.linalg.norm(prin), np.asarray(given) / np.linalg.norm(given), tl):
+            bad.append('principal vector {} is not the given one {}'.format(prin.tolist(), given))
+        if given is None and not close(prin, [0, 1], tl):
+            bad.append('default principal vector changed: {}'.format(prin.tolist()))
+        if 'axis_init' not in s:
+            # default frame: axis = principal rotated by -90 degrees
+            pn = prin / np.linalg.norm(prin)
+            if not close(ia[0], [pn[1], -pn[0]], tl):
+                bad.append('derived det_axis_init {} is not the default (1,0) carried along with {}'.format(
+                    ia[0].tolist(), pn.tolist()))
+        else:
+            gv = np.asarray(s['axis_init'], dtype=float)
+            if not close(ia[0], gv / np.linalg.norm(gv), tl):
+                bad.append('det_axis_init is not the given one')
+    elif cls == 'par3e':
+        prin = np.asarray(g.det_pos_init, dtype=float) - t
+        given = s.get('pos')
+        if given is not None and not close(prin, given, tl * 10):
+            bad.append('det_pos_init - translation {} is not the given one {}'.format(prin.tolist(), given))
+        if 'axes_init' not in s:
+            pn = prin / np.linalg.norm(prin)
+            # default frame (e_x, e_z) with pos e_y: a0 x a1 = -pos direction, all orthogonal
+            if abs(np.dot(ia[0], ia[1])) > tl or abs(np.dot(ia[0], pn)) > tl or abs(np.dot(ia[1], pn)) > tl \
+                    or not close(np.cross(ia[0], ia[1]), -pn, tl):
+                bad.append('derived det_axes_init {} are not the default frame carried along with {}'.format(
+                    ia.tolist(), pn.tolist()))
+    else:
+        ax = np.asarray(g.axis, dtype=float)
+        given = s.get('axis')
+        if given is not None and not close(ax, np.asarray(given) / np.linalg.norm(given), tl):
+            bad.append('axis {} is not the given one normalised'.format(ax.tolist()))
+        if given is None and not close(ax, [0, 0, 1], tl):
+            bad.append('default axis changed')
+        prin = (np.asarray(g.det_pos_init, dtype=float) - t) if cls == 'par3a' else np.asarray(g.src_to_det_init, dtype=float)
+        gp = s.get('pos') if cls == 'par3a' else s.get('s2d')
+        if gp is None:
+            if abs(np.dot(prin, ax)) > tl or abs(np.linalg.norm(prin) - 1) > tl:
+                bad.append('derived initial position/direction {} not a unit vector orthogonal to the axis'.format(prin.tolist()))
+        else:
+            k = 1.0 if cls == 'par3a' else np.linalg.norm(gp)
+            if not close(prin, np.asarray(gp) / k, tl * 10):
+                bad.append('initial position/direction {} is not the given one {}'.format(prin.tolist(), gp))
+        if 'axes_init' not in s:
+            if not close(ia[1], ax, tl):
+                bad.append('derived det_axes_init[1] {} is not the axis'.format(ia[1].tolist()))
+            if gp is None and not close(ia[0], np.cross(prin, ax), tl):
+                bad.append('derived det_axes_init[0] {} is not (derived position) x axis'.format(ia[0].tolist()))
+            if abs(np.dot(ia[0], ax)) > tl:
+                bad.append('derived det_axes_init[0] not orthogonal to the axis')
+        else:
+            for a, gv in zip(ia, s['axes_init']):
+                if not close(a, np.asarray(gv) / np.linalg.norm(gv), tl):
+                    bad.append('det_axes_init are not the given ones normalised')
+    return bad
+
+
 def run_points(ctx, specs, npts):
     """pointwise correspondence + oracle"""
     cases, lines = [], []
@@ -675,6 +834,11 @@ def run_points(ctx, specs, npts):
         if stf != 'ok':
             ctx.violation('attributes {}'.format(s['cls']), stf, {'kind': 'construct', 'spec': jsonable_spec(s)})
             continue
+        stfr, fr = guarded(lambda: oracle_frame(s, g))
+        for msg in ([stfr] if stfr != 'ok' else fr):
+            ctx.violation('constructor frame {} how={} flags={}'.format(
+                s['cls'], s['how'], '+'.join(sorted(k for k in s['variant'] if s['variant'][k]))),
+                msg, {'kind': 'construct', 'spec': jsonable_spec(s)})
         aligned = True
         if s.get('det', 'flat') != 'flat':
             sta, al = guarded(lambda: curved_alignment(g.detector))
@@ -686,7 +850,8 @@ def run_points(ctx, specs, npts):
             if not aligned:
                 ctx.violation('curved-detector alignment {} {}'.format(
                     s['det'], 'second rotation collinear-opposite' if al[2] else 'generic'),
-                    'axes={} : {}'.format(np.asarray(g.detector.axes).tolist(), al[1]),
+                    'axes={} : {}'.format(np.asarray(getattr(g.detector, 'axes', getattr(
+                        g.detector, 'axis', None))).tolist(), al[1]),
                     {'kind': 'construct', 'spec': jsonable_spec(s)})
         for ang, dp in sample_params(ctx.rng, s, g, npts):
             r = impl_point(s, g, ang, dp)
@@ -1211,7 +1376,17 @@ def factory_case(ctx, which, ndim, lines, cases):
                 if abs(u[0]) > dmax[0] * (1 + 1e-9) or abs(abs(u[0]) - dmax[0]) > 1e-9 * (1 + dmax[0]):
                     ctx.violation(key + ' central magnification', 'point rho*det_axis is seen at {} '
                                   'detector edge {}'.format(u[0], dmax[0]), desc)
-        cases.append((desc, float(dmax[0]), float(-dmin[0]), hw))
+        cases.append((desc, float(dmax[0]), float(-dmin[0]), hw, None))
+        if which == 'cone' and ndim == 3:
+            # vertical extent as the code computes it: 2*sin(arctan(zmax/dist))*(rs+rd), rounded up
+            # to a whole number of pixels of size min_mag*cell_side
+            zmax = max(abs(lo[2]), abs(hi[2]))
+            dist = g.src_radius - rho
+            hyp = math.hypot(dist, zmax)
+            delta = (g.src_radius + g.det_radius) / (g.src_radius + rho) * float(space.cell_sides[2])
+            lines.append('factory kind=coneh zmax={} hyp={} rs={} rd={}'.format(
+                fs(zmax), fs(hyp), fs(g.src_radius), fs(g.det_radius)))
+            cases.append((desc, float(dmax[1]), float(-dmin[1]), None, delta))
         full = math.pi if which == 'parallel' else (PI2 * desc.get('num_turns', 1))
         if not desc.get('short_scan'):
             if abs(float(g.motion_params.max_pt[0]) - full) > 1e-12 * full or float(g.motion_params.min_pt[0]) != 0:
@@ -1233,13 +1408,26 @@ def run_factories(ctx):
         for _ in range(n):
             factory_case(ctx, which, ndim, lines, cases)
     outs = core.run_driver('C19', lines)
-    for (desc, hmax, hmin, hw), ans in zip(cases, outs):
-        ok = ans.startswith('ok hw=')
-        if ok:
-            m = float(core.pfrac(ans[len('ok hw='):]))
-            ok = abs(m - hmax) <= 1e-12 * (1 + m) and abs(m - hmin) <= 1e-12 * (1 + m)
-        if not ok:
-            ctx.disagree(desc, (hmin, hmax), ans, stream='factory-halfwidth')
+    for (desc, hmax, hmin, hw, delta), ans in zip(cases, outs):
+        if delta is None:
+            ok = ans.startswith('ok hw=')
+            if ok:
+                m = float(core.pfrac(ans[len('ok hw='):]))
+                ok = abs(m - hmax) <= 1e-12 * (1 + m) and abs(m - hmin) <= 1e-12 * (1 + m)
+            if not ok:
+                ctx.disagree(desc, (hmin, hmax), ans, stream='factory-halfwidth')
+        else:
+            ok = ans.startswith('ok hh=')
+            if ok:
+                raw = float(core.pfrac(ans[len('ok hh='):]))
+                q = 2 * raw / delta
+                cands = {math.ceil(q)}
+                if abs(q - round(q)) < 1e-9:   # branch point of the ceil: either side
+                    cands |= {round(q), round(q) + 1}
+                ok = any(abs(n * delta / 2 - hmax) <= 1e-12 * (1 + hmax) and
+                         abs(n * delta / 2 - hmin) <= 1e-12 * (1 + hmax) for n in cands)
+            if not ok:
+                ctx.disagree(desc, (hmin, hmax), ans + ' delta={}'.format(delta), stream='factory-halfheight')
 
 
 # ---------------------------------------------------------------------------
@@ -1288,11 +1476,25 @@ def run_detectors(ctx):
             ctx.violation('curved-detector alignment circ', al[1], desc)
 
 
+def stream(ctx, name, f, *a):
+    """A stream must never take the harness down: an exception escaping the guarded calls
+    (possible only when the real code returns something of an unexpected kind) is reported
+    as a violation of that stream."""
+    import traceback
+    try:
+        f(ctx, *a)
+    except core.DriverBroken:
+        raise
+    except Exception as e:  # noqa
+        ctx.violation('stream {} aborted: {}'.format(name, type(e).__name__),
+                      traceback.format_exc()[-700:], {'kind': 'stream', 'name': name})
+
+
 def run(ctx):
     ctx = Dedup(ctx)
     reps = 1 if ctx.quick else 4
     specs = make_specs(ctx, reps)
-    run_points(ctx, specs, 3 if ctx.quick else 6)
+    stream(ctx, 'points', run_points, specs, 3 if ctx.quick else 6)
     vspecs = [s for s in specs if not s['variant'].get('ndarray_args')]
     if ctx.quick:
         # one geometry per (class, detector kind, construction)
@@ -1303,11 +1505,11 @@ def run(ctx):
                 seen.add(k)
                 keep.append(s)
         vspecs = keep
-    run_vector(ctx, vspecs)
-    run_getitem(ctx, specs)
-    run_frommatrix(ctx, specs)
-    run_factories(ctx)
-    run_detectors(ctx)
+    stream(ctx, 'vector', run_vector, vspecs)
+    stream(ctx, 'getitem', run_getitem, specs)
+    stream(ctx, 'frommatrix', run_frommatrix, specs)
+    stream(ctx, 'factories', run_factories)
+    stream(ctx, 'detectors', run_detectors)
 
 
 def search(ctx, broken):
@@ -1317,12 +1519,12 @@ def search(ctx, broken):
     ctx = Dedup(ctx)
     try:
         specs = make_specs(ctx, 3)
-        run_points(ctx, specs, 6)
-        run_vector(ctx, [s for s in specs if not s['variant'].get('ndarray_args')][::3])
-        run_getitem(ctx, specs)
-        run_frommatrix(ctx, specs)
-        run_factories(ctx)
-        run_detectors(ctx)
+        stream(ctx, 'points', run_points, specs, 6)
+        stream(ctx, 'vector', run_vector, [s for s in specs if not s['variant'].get('ndarray_args')][::3])
+        stream(ctx, 'getitem', run_getitem, specs)
+        stream(ctx, 'frommatrix', run_frommatrix, specs)
+        stream(ctx, 'factories', run_factories)
+        stream(ctx, 'detectors', run_detectors)
     finally:
         real.tier = saved
 
@@ -1350,6 +1552,9 @@ def replay(ctx, case):
             st, al = guarded(lambda: curved_alignment(g.detector))
             if st != 'ok' or not al[0]:
                 return 'curved detector not aligned: {}'.format(al[1] if st == 'ok' else st)
+        stfr, fr = guarded(lambda: oracle_frame(s, g))
+        if stfr != 'ok' or fr:
+            return '; '.join(fr) if stfr == 'ok' else stfr
         return None
     if kind == 'vector':
         s = case['spec']
